@@ -435,6 +435,7 @@ STAT_FORMS = [
     "x = {f \";\", g ',', h '=', \"end\", k = '}', [\"]\"] = \")\"}", "f ';' g \",\" h '(' (i)\")\"",
     "x = ((a + b) * (c + d)):m()", "s = ((a or b) .. f(x)):upper()", "((a + b) * (c + d)):m()", "y = ((a + b) * (c + d)).k[1]", "z = ((f or g)(1) .. (h)(2))()",
     "w = (-(a + b)):m((c + d) * (e + f))", "v = (function() end)()", "u = ({(a)}):m()",
+    "x = {[1] = a, [2] = b, [3] = c}", "x = {a, [2] = b, [3] = c, [5] = d}", "if a then b() else --[[c]] if d then e() end end", "if a then else if d then e() end end",
     "local n = arg", "block = stmt", "do local indent end", "newline = arg.block",
     "x = 'a\\z --b' .. \"\\z--[[c]]d\"", "s = \"a\\z   --[[b]]c\" y = 1",
 ]
@@ -2564,6 +2565,9 @@ def make_file_tree_raw(r: random.Random, faults: bool, cycle: int = 0, k4: bool 
 
     def body(path: str, depth: int, index: int = -1) -> str:
         lines = [f"marker_{next(counter)} = '{path}'"]
+        if r.random() < 0.3:
+            # `as` and `is` are ordinary names of Lua, whatever the suffix of the file (only typed=True makes them keywords)
+            lines.append(r.choice(["local as, is = 1, 2", "is = as", "function is(as) return as end"]))
         # acyclic: a module may only require modules with a larger index (statement-level cycles: see `cycle`)
         allowed = mods[index + 1:]
         if cycle and index >= 0:
